@@ -769,17 +769,15 @@ impl Collection {
     #[inline]
     #[must_use]
     pub fn get_host(&self, name: &str) -> Option<&Host> {
-        match self.by_name.get(name) {
-            Some(v) => match v {
-                HostValue::Host(h) => Some(h),
-                HostValue::Ref(r) => Some(
-                    self.by_name
-                        .get(r)
-                        .and_then(HostValue::as_host)
-                        .expect("internal error when resolving host: Ref pointed to Ref"),
-                ),
-            },
-            None => None,
+        let mut value = self.by_name.get(name)?;
+        // A reference can point to another reference: a host added later may declare the name
+        // of an earlier host as one of its alternative names, which replaces that host.
+        // Every step leads to a name which was inserted later, so this terminates.
+        loop {
+            match value {
+                HostValue::Host(h) => return Some(h),
+                HostValue::Ref(r) => value = self.by_name.get(r)?,
+            }
         }
     }
     /// Get a [`Host`] by name, and returns the [`default`](Self::get_default) if none were found.
